@@ -23,6 +23,16 @@ ASSUMPTIONS = [
     '(not stub steps, hence invisible)',
 ]
 DOCUMENTED_NINJA_ONLY = ('-fdiagnostics-color', '-fcolor-diagnostics')
+EXTRA_COVERAGE = {
+    'programs': lambda tier, ev: ev.get('programs', 0),
+    'disagreements_checked': lambda tier, ev: (ev.get('steps-compared', 0) +
+                                               ev.get('compdb-entries-compared', 0) +
+                                               ev.get('touch-sets-compared', 0) +
+                                               ev.get('env-compared', 0)),
+    'explanation': 'each program (generated build.bfg + option set) is translated to a Makefile, a '
+                   'build.ninja and a compile_commands.json; the translations are validated against '
+                   'each other by executing both build files with recording stubs',
+}
 
 
 def floors(tier):
